@@ -92,7 +92,7 @@ def classify(k, rec):
         return "tdvp-ps-noncanonical-input"
     if k.startswith("solver-dependence/tdvp_mu_cmf"):
         return "cmf-krylov-solver-dependence"
-    return "oracle/" + k
+    return "oracle/" + "/".join(k.split("/")[:2])
 
 
 def q_of_float(x):
